@@ -6,18 +6,29 @@ using namespace std;
 extern "C" void verif_harness() {
   int which = __sym_choose("harness", HLO, HHI);
   int ka = anyKind("A");
-  int n = which == 0 ? 1 : (which == 4 ? 3 : 2);
+  int n = which == 0 ? 1 : (which == 4 || which == 6 ? 3 : 2);
   MP A = mkMatrix(ka, n, n);
   if (which == 0) (*A)(0, 0) = symd("a00");
   else if (which == 1) { double a = symd("a"), b = symd("b"), c = symd("c"); SYM_ASSUME(!(b == 0)); (*A)(0, 0) = a; (*A)(0, 1) = b; (*A)(1, 0) = b; (*A)(1, 1) = c; }           // symmetric, coupled
   else if (which == 2) { double a = symd("a"), c = symd("c"); (*A)(0, 0) = a; (*A)(0, 1) = 0; (*A)(1, 0) = 0; (*A)(1, 1) = c; }                                                     // diagonal (symmetric path)
   else if (which == 4) { double a = symd("a"), b = symd("b"), c = symd("c"), d = symd("d"); int pos = __sym_choose("isolated", 0, 2);      // 3x3 symmetric, a coupled 2x2 block plus an isolated diagonal entry (the QL iteration splits)
     int p = pos == 0 ? 1 : 0, q = pos == 2 ? 1 : 2; for (int i = 0; i < 3; i++) for (int j = 0; j < 3; j++) (*A)(i, j) = 0; (*A)(p, p) = a; (*A)(q, q) = c; (*A)(p, q) = b; (*A)(q, p) = b; (*A)(pos, pos) = d; SYM_ASSUME(b > 0.001 || b < -0.001); }
+  else if (which == 6) {   // 3x3 non-symmetric with a rational spectrum: block-triangular shapes whose Hessenberg reduction meets an already reduced column (entry (1,0) non-zero, (2,0) zero)
+    // or has to eliminate (2,0); the isolated eigenvalue deflates at once and the 2x2 block is triangular, so the QR iteration exits without a sweep
+    int shape = __sym_choose("shape", 0, 2); double a = symd("a"), e = symd("e"), g = symd("g"), d = symd("d"), c = symd("c"), f = symd("f");
+    if (shape != 2) {   // the leading 2x2 block is concrete (two blocks are forked): with a symbolic block the reduction takes square roots of symbolic squares and no path finishes (measured); the last column and the isolated eigenvalue stay symbolic
+      int blk = __sym_choose("block", 0, 1); a = blk ? -1.0 : 4.0; d = blk ? 3.0 : 4.0; e = blk ? 0.5 : 1.0; }
+    for (int i = 0; i < 3; i++) for (int j = 0; j < 3; j++) (*A)(i, j) = 0; (*A)(0, 0) = a; (*A)(1, 1) = e; (*A)(2, 2) = g;
+    if (shape == 0) { (*A)(1, 0) = d; (*A)(0, 2) = c; (*A)(1, 2) = f; }          // [[a,0,c],[d,e,f],[0,0,g]]
+    else if (shape == 1) { (*A)(1, 0) = d; (*A)(1, 2) = f; }                     // [[a,0,0],[d,e,f],[0,0,g]]
+    else { (*A)(0, 1) = d; (*A)(0, 2) = c; (*A)(1, 2) = f; }                     // upper triangular, fully symbolic
+    if (shape == 2) SYM_ASSUME(d > 0.001 || d < -0.001); if (shape != 1) SYM_ASSUME(c > 0.001 || c < -0.001); SYM_ASSUME(f > 0.001 || f < -0.001);
+    if (shape == 2) SYM_ASSUME(a - e > 0.01 || e - a > 0.01); SYM_ASSUME(a - g > 0.01 || g - a > 0.01); SYM_ASSUME(e - g > 0.01 || g - e > 0.01); }
   else if (which == 5) { double a = symd("a"), b = symd("b"); int lower = __sym_choose("lower", 0, 1); (*A)(0, 0) = a; (*A)(1, 1) = a; (*A)(0, 1) = lower ? 0 : b; (*A)(1, 0) = lower ? b : 0; SYM_ASSUME(b > 0.001 || b < -0.001); }   // defective: a 2x2 Jordan block (repeated eigenvalue, one eigenvector)
   else { double a = symd("a"), b = symd("b"), c = symd("c"); int lower = __sym_choose("lower", 0, 1); SYM_ASSUME(!(b == 0) && !(a == c)); (*A)(0, 0) = a; (*A)(1, 1) = c; (*A)(0, 1) = lower ? 0 : b; (*A)(1, 0) = lower ? b : 0; }   // triangular, distinct eigenvalues (non-symmetric path)
   // moderate magnitudes and a clearly non-negligible coupling: the kernels treat an off-diagonal entry below 2^-52 times the neighbouring diagonal as zero
   // (a relative-epsilon decision; the exact equations below are claimed away from that regime)
-  for (int i = 0; i < n; i++) for (int j = 0; j < n; j++) { double x = (*A)(i, j); SYM_ASSUME(x >= -100 && x <= 100); if (i != j && which != 2 && which != 4 && which != 5 && !(which == 3 && ((*A)(i, j) == 0))) SYM_ASSUME(x > 0.001 || x < -0.001); }
+  for (int i = 0; i < n; i++) for (int j = 0; j < n; j++) { double x = (*A)(i, j); SYM_ASSUME(x >= -100 && x <= 100); if (i != j && which != 2 && which != 4 && which != 5 && which != 6 && !(which == 3 && ((*A)(i, j) == 0))) SYM_ASSUME(x > 0.001 || x < -0.001); }
 #ifdef MATFUN
   if (which == 1 || (which == 3 && !((*A)(1, 0) == 0.0))) return;    // matrix functions: 1x1, diagonal and upper-triangular input (the symmetric and lower-triangular paths go through square roots; measured: no verdict)
 #endif
